@@ -21,8 +21,9 @@ EXPLANATION = (
     "set of every public coroutine must lie inside the InverterError family (R1); no exception may leave an event-loop callback, "
     "with Future.set_result/set_exception raising InvalidStateError unless dominated by a not-done() test (R2); the consecutive "
     "failure counter is reset on success, incremented exactly once before each RequestFailedException and passed to it, and "
-    "command.execute is reachable from inverter objects only through _read_from_socket (R3). Counter values over histories and "
-    "OS behaviour are not decided."
+    "command.execute is reachable from inverter objects only through _read_from_socket (R3); the request is bound to the protocol "
+    "object before the transport write, because a failed send calls error_received synchronously (R4). Counter values over "
+    "histories and OS behaviour are not decided."
 )
 
 DOCUMENTED_EXPLICIT = ("ValueError", "NotImplementedError")
@@ -55,6 +56,7 @@ def check(ctx: Ctx, rep: Report):
     prog, res = ctx.prog, ctx.res
     rep.rule("C09.R1", "only InverterError subclasses escape the public coroutines for network-seeded causes", 30)
     rep.rule("C09.R2", "no exception escapes an event-loop callback (InvalidStateError unless dominated by a not-done() test)", 10)
+    rep.rule("C09.R4", "the request is published (self.command, self.response_future bound) before the transport write that can synchronously call error_received", 2)
     rep.rule("C09.R3", "_read_from_socket resets the failure counter on success, increments it once before every RequestFailedException and passes it on; execute is reached only through it", 5)
     mr = net_mayraise(ctx)
     inverr = prog.cls("InverterError")
@@ -86,6 +88,37 @@ def check(ctx: Ctx, rep: Report):
     r2(ctx, rep)
     # ---- R3
     r3(ctx, rep)
+    # ---- R4
+    r4(ctx, rep)
+
+
+def r4(ctx: Ctx, rep: Report):
+    """A datagram transport reports a failed send by calling protocol.error_received(exc) synchronously, from inside
+    sendto(); that callback (like every other one) works on self.response_future / self.command.  So the request must be
+    published - both attributes bound to the request being sent - before the transport write on every path of
+    _send_request; otherwise the callback hits None (AttributeError out of execute) or the previous, finished future."""
+    from ..paths import enumerate_paths, no_raise
+    from .proto import proto_classes, method, tags
+    for ci in proto_classes(ctx):
+        sr = method(ctx, ci, "_send_request")
+        n = 0
+        for p in enumerate_paths(ctx.prog, sr, no_raise):
+            sends = [i for i, ev in enumerate(p.events) if ev.kind == "call" and "send" in tags(ev)]
+            if not sends:
+                continue
+            n += 1
+            before = set()
+            for ev in p.events[:sends[0]]:
+                if ev.kind == "stmt":
+                    before |= {t for t in tags(ev) if t in ("store:response_future", "store:command")}
+            missing = sorted({"store:response_future", "store:command"} - before)
+            rep.check(not missing, "C09.R4", "publish-before-send:%s:%s" % (ci.name, p.describe(4)), sr.loc(p.events[sends[0]].node),
+                      "%s binds the request (command, response_future) before the transport write" % sr.short,
+                      bad="%s writes to the transport before binding self.%s: a send error reported synchronously through error_received() "
+                          "meets None (AttributeError leaves execute) or the previous request's future [path %s]" % (
+                              sr.short, ", self.".join(m.split(":")[1] for m in missing), p.describe(6)))
+        if n == 0:
+            raise AnalysisError("%s never transmits" % sr.short)
 
 
 def _origin(mr, fn, exc):
